@@ -124,9 +124,50 @@ def sensitivity(only=None):
                 if not caught:
                     ok = False
             report[name] = res
+            record_sensitivity({name: res})
         finally:
             shutil.rmtree(scratch, ignore_errors=True)
     return ok, report
+
+
+def _git_head(path):
+    p = subprocess.run(['git', '-C', path, 'rev-parse', '--short', 'HEAD'], stdout=subprocess.PIPE)
+    return p.stdout.decode().strip()
+
+
+def record_sensitivity(report):
+    """Merge results into /verif/sensitivity_result.json (one entry per seeded
+    change and check, stamped with the /verif and /repo commits it ran at)."""
+    path = os.path.join(driver.VERIF, 'sensitivity_result.json')
+    try:
+        with open(path) as fp:
+            doc = json.load(fp)
+        if not isinstance(doc.get('runs'), list):
+            doc = {}
+    except (OSError, ValueError):
+        doc = {}
+    runs = {}
+    for r in doc.get('runs', []):
+        r.setdefault('commit_of_verif', doc.get('commit_of_verif', '?'))
+        r.setdefault('repo_head', doc.get('repo_head', '?'))
+        runs[(r['seeded'], r['check'])] = r
+    vh, rh = _git_head(driver.VERIF), _git_head('/repo')
+    for name, res in report.items():
+        for prop, caught in res.items():
+            runs[(name, prop)] = {'seeded': name, 'check': prop, 'result': 'caught' if caught else 'MISSED',
+                                  'commit_of_verif': vh, 'repo_head': rh}
+    active = set(n for n in os.listdir(os.path.join(driver.VERIF, 'seeded'))
+                 if os.path.isfile(os.path.join(driver.VERIF, 'seeded', n, 'meta.json')))
+    rows = [runs[k] for k in sorted(runs) if k[0] in active]
+    out = {'tier': 'quick', 'seed': int(os.environ.get('VERIF_SEED', driver.DEFAULT_SEED)),
+           'seeded_changes': len(set(r['seeded'] for r in rows)), 'check_runs': len(rows),
+           'all_caught': all(r['result'] == 'caught' for r in rows),
+           'written_by': 'python -m tsim selftest sensitivity (entries are merged per seeded change; each carries the '
+                         'commits it ran at)',
+           'runs': rows}
+    with open(path, 'w') as fp:
+        json.dump(out, fp, indent=1, sort_keys=True)
+        fp.write('\n')
 
 
 def main(args):
